@@ -33,6 +33,11 @@ def gen_http(rng, fault=None):
         ver = rng.choice([b'HTTP/x.1', b'HTTQ/1.1', b'http/1.1', b'HTTP/1.1x', b'HTTP', b'HTTP/1,1'])
     if fault == 'nocolon':
         hdrs.insert(rng.below(len(hdrs) + 1), rng.choice([b'foo', b'bar baz', b'x']))
+    if fault == 'folded':
+        # obsolete line folding: a continuation line starting with SP / HT and carrying no colon
+        hdrs.insert(rng.below(len(hdrs) + 1), b'Accept: text/html,')
+        i = rng.below(len(hdrs)) + 1
+        hdrs.insert(i, rng.choice([b' application/xml', b'\tq=0.9', b'  x']))
     body = eol.join([verb + sp1 + target + sp2 + ver] + hdrs) + eol + eol
     if fault == 'unterminated':
         body = body[:-len(eol)]
@@ -122,6 +127,15 @@ def gen_stun(rng, fault=None, magic=None):
     if magic:
         return hdr + b'\x21\x12\xa4\x42' + tid + attrs
     return hdr + rng.bytes(4) + tid + attrs
+
+
+def gen_stun_long(rng):
+    """cookie-bearing binding request with >= 256 attribute bytes (identified by the matcher despite K2), well-formed"""
+    attrs = b''
+    while len(attrs) < 256:
+        attrs += rng.choice([stun_attr(0x8022, rng.bytes(rng.below(40))), stun_attr(6, rng.bytes(1 + rng.below(16))),
+                             stun_attr(3, struct.pack('>I', rng.choice([0, 2])))])
+    return b'\x00\x01' + struct.pack('>H', len(attrs)) + b'\x21\x12\xa4\x42' + rng.bytes(12) + attrs
 
 
 def dns_name(rng):
@@ -290,7 +304,7 @@ def gen_smb2(rng, fault=None):
 
 
 APP_GENS = {
-    'http': (gen_http, [None, None, None, 'verb', 'nosp', 'version', 'nocolon', 'unterminated', 'lower', 'twosp']),
+    'http': (gen_http, [None, None, None, None, 'verb', 'nosp', 'version', 'nocolon', 'unterminated', 'lower', 'twosp', 'folded']),
     'ssh': (gen_ssh, [None, None, None, 'unterminated', 'version', 'magic']),
     'stun': (gen_stun, [None, None, None, None, 'class', 'method', 'lying', 'short', 'family', 'unpadded']),
     'dns': (gen_dns, [None, None, None, 'qr', 'sections', 'notina', 'truncated']),
